@@ -284,8 +284,10 @@ def rule_bits(prop, repo):
             fn = t.get("fn") or {}
             if fn.get("res_def") in ("crate::u256::U256::bits_without_leading_zeros", "crate::u256::U256::bits"):
                 tb = tb or repo.tb(b)
-                R.instance()
                 recv = strip(tb.call_args(bb)[0])
+                if b.rec.get("impl_self_adt") == "crate::u256::U256" and recv in (("init", ("deref", 1)), ("param", 1)):
+                    continue          # one bit-scan method of the integer delegating to another on the same value: judged at its own callers
+                R.instance()
                 ok = any(is_canon_conv(recv, ap) is not None for ap in fp)
                 generic_into = recv[0] == "call" and recv[1].name == "into" and "Into<crate::u256::U256>" in recv[1].i
                 if generic_into and not ok:
@@ -353,6 +355,12 @@ def rule_bits(prop, repo):
         ok = False
         if rv[0] == "call" and rv[1].name == "skip_while":
             it = strip(rv[2][0])
+            if it[0] == "call":
+                # `self.bits().skip_while(..)`: the plain iterator through its own constructor method
+                from core.terms import expand_call, same_file
+                e = expand_call(repo, it, same_file(repo, wb))
+                if e is not None:
+                    it = strip(e)
             clo = strip(rv[2][1])
             start = it[0] == "agg" and it[1] == "crate::u256::BitIterator" and strip(it[3][0]) in (("init", ("deref", 1)), ("param", 1)) and it[3][1][0] == "const" and int(it[3][1][1]["int"]) == 256
             cb = F.bodies.get(clo[1][1]) if clo[0] == "agg" and isinstance(clo[1], tuple) else None
